@@ -64,6 +64,8 @@ func managerScenario(w *trace.Writer, seed int64) bool {
 	inner, _ := connection.NewManager(grpc.WithTransportCredentials(insecure.NewCredentials()))
 	cm := &refusingCM{inner: inner, r: rand.New(rand.NewSource(seed ^ 0x1234)), refuse: []int{0, 0, 15, 40}[r.Intn(4)]}
 	slowCb := r.Intn(3) == 0
+	// receive timeout: the manager-wide default and, per target, an override in the target's metadata ("0" switches it off)
+	globalRT := []time.Duration{60 * time.Millisecond, 60 * time.Millisecond, 0}[r.Intn(3)]
 	cb := func(k string) func(string) {
 		return func(t string) { emit(trace.E{"ev": "cb", "t": t, "k": k, "id": 0}) }
 	}
@@ -78,12 +80,14 @@ func managerScenario(w *trace.Writer, seed int64) bool {
 		ConnectError:      func(t string, _ error) { emit(trace.E{"ev": "cb", "t": t, "k": "connecterr", "id": 0}) },
 		MonitorError:      func(t string, _ error) { emit(trace.E{"ev": "cb", "t": t, "k": "monitorerr", "id": 0}) },
 		ConnectionManager: cm,
-		ReceiveTimeout:    60 * time.Millisecond,
+		ReceiveTimeout:    globalRT,
 	})
 	if err != nil {
 		panic(err)
 	}
 	names := []string{"t1", "t2", "t3"}[:1+r.Intn(3)]
+	meta := map[string]map[string]string{}
+	effRT := map[string]time.Duration{}
 	home := map[string]*fakeServer{}
 	for _, t := range names {
 		s := servers[r.Intn(len(servers))]
@@ -99,6 +103,15 @@ func managerScenario(w *trace.Writer, seed int64) bool {
 		s.mu.Lock()
 		s.scripts[t] = script
 		s.mu.Unlock()
+		effRT[t] = globalRT
+		switch r.Intn(4) {
+		case 0:
+			meta[t] = map[string]string{"receive_timeout": "40ms"}
+			effRT[t] = 40 * time.Millisecond
+		case 1:
+			meta[t] = map[string]string{"receive_timeout": "0"}
+			effRT[t] = 0
+		}
 	}
 	sr := &pb.SubscribeRequest{Request: &pb.SubscribeRequest_Subscribe{Subscribe: &pb.SubscriptionList{}}}
 	var hmu sync.Mutex
@@ -123,8 +136,12 @@ func managerScenario(w *trace.Writer, seed int64) bool {
 		return "hang"
 	}
 	call := func(op, t string, f func() error) { callAs("c1", op, t, f) }
+	tdesc := func(t string) *tpb.Target {
+		return &tpb.Target{Addresses: []string{home[t].addr}, Meta: meta[t]}
+	}
 	add := func(t string) {
-		call("Add", t, func() error { return m.Add(t, &tpb.Target{Addresses: []string{home[t].addr}}, sr) })
+		emit(trace.E{"ev": "tcfg", "t": t, "rt": int(effRT[t] / time.Millisecond)})
+		call("Add", t, func() error { return m.Add(t, tdesc(t), sr) })
 	}
 	// remove: the script's Remove; in some scenarios a second controller races an Add of the same target against it.
 	// Reports whether the target is managed afterwards.
@@ -138,7 +155,7 @@ func managerScenario(w *trace.Writer, seed int64) bool {
 		resc := make(chan string, 1)
 		go func() {
 			time.Sleep(delay)
-			resc <- callAs("c2", "Add", t, func() error { return m.Add(t, &tpb.Target{Addresses: []string{home[t].addr}}, sr) })
+			resc <- callAs("c2", "Add", t, func() error { return m.Add(t, tdesc(t), sr) })
 		}()
 		call("Remove", t, func() error { return m.Remove(t) })
 		return <-resc == "ok"
@@ -168,6 +185,22 @@ func managerScenario(w *trace.Writer, seed int64) bool {
 			call("Remove", "nosuch", func() error { return m.Remove("nosuch") })
 		default:
 			call("Reconnect", "nosuch", func() error { return m.Reconnect("nosuch") })
+		}
+	}
+	// a session on which nothing arrives for longer than the target's receive timeout is ended and replaced, without
+	// anybody's help (every script ends in sessions that fall silent)
+	for _, t := range names {
+		if !active[t] || hung || effRT[t] == 0 {
+			continue
+		}
+		before := home[t].opened(t)
+		deadline := time.Now().Add(3*time.Second + 50*effRT[t])
+		for home[t].opened(t) <= before && time.Now().Before(deadline) {
+			time.Sleep(time.Millisecond)
+		}
+		if home[t].opened(t) <= before {
+			emit(trace.E{"ev": "hang", "what": "a silent session was not ended by the target's receive timeout", "t": t})
+			hung = true
 		}
 	}
 	// failed sessions are retried for as long as the target is managed: force one more
